@@ -167,7 +167,10 @@ func yaccgoPath() string {
 func runCLI(cpuLimit int, wall time.Duration, dir string, args ...string) cliResult {
 	// the CPU limit is the budget; the wall-clock watchdog only ends runs that are blocked without using
 	// CPU, and must not fire because the machine is busy: never less than 15 minutes
-	if wall < 15*time.Minute {
+	// (C13, whose subject is termination, passes its own 5 minutes for inputs of a few hundred bytes)
+	if wall < 5*time.Minute {
+		wall = 5 * time.Minute
+	} else if wall < 15*time.Minute && cpuLimit > 10 {
 		wall = 15 * time.Minute
 	}
 	sh := fmt.Sprintf("ulimit -t %d; exec \"$0\" \"$@\"", cpuLimit)
